@@ -2,10 +2,12 @@
 # Offline build of the whole framework: Coq theories (full .vo), extracted
 # model runner bbm, Rust harness bbh (from /repo's current tree).
 set -e
-cd /verif/coq
-coq_makefile -f _CoqProject -o Makefile
-timeout 3400 make -j16 > /verif/coq/build.log 2>&1 || { tail -50 /verif/coq/build.log; exit 1; }
-/verif/ocaml/build.sh
-cd /verif/harness
+ROOT=$(cd "$(dirname "$0")" && pwd)
+cd "$ROOT"
+python3 -c "import sys; sys.path.insert(0,'$ROOT'); from lib import core; core.coq_makefile()"
+cd "$ROOT/coq"
+timeout 3400 make -j16 > build.log 2>&1 || { tail -50 build.log; exit 1; }
+"$ROOT/ocaml/build.sh"
+cd "$ROOT/harness"
 CARGO_NET_OFFLINE=true RUSTFLAGS="--cfg bb_verif" cargo build --release --offline 2>&1 | tail -3
 echo setup-done
